@@ -20,6 +20,7 @@ mod sexp;
 mod types;
 mod diag;
 mod project;
+mod repeat;
 
 use sexp::{hex, unhex};
 
@@ -107,6 +108,7 @@ fn dispatch(endpoint: &str, fields: &[&str]) -> String {
         "super" | "union" | "types" => types::dispatch(endpoint, fields),
         "render" => diag::dispatch(fields),
         "project" => project::dispatch(fields),
+        "repeat" => repeat::dispatch(fields),
         "ping" => "OK".into(),
         other => format!("BAD\tunknown endpoint {other}"),
     }
